@@ -360,6 +360,27 @@ def run(prog: Program, L: Ledger) -> None:
     copy_ok = norm(r0) in ("context.atoms[context._moving_indices].copy()",)
     if isinstance(r0, ast.Subscript) and norm(inl.inline(r0.value)) == "context.atoms" and norm(inl.inline(r0.slice)) == "context._moving_indices":
         copy_ok = True
+    if not copy_ok and isinstance(r0, ast.Attribute) and isinstance(r0.value, ast.Name) and r0.value.id == "self":
+        # a scratch copy kept on the operation: every value stored into the attribute (None apart) is a slice copy of the
+        # moving group — whether the kept copy is still fresh is rule M's question, not this one's
+        vals = []
+        for c_ in prog.mro_classes(rot):
+            for m_ in c_.methods.values():
+                if m_.name == "__init__":
+                    continue
+                inl_ = Inliner(m_.node)
+                for st_ in walk_no_nested(m_.node):
+                    if isinstance(st_, (ast.Assign, ast.AnnAssign)) and st_.value is not None:
+                        tg_ = st_.targets if isinstance(st_, ast.Assign) else [st_.target]
+                        if any(isinstance(t_, ast.Attribute) and isinstance(t_.value, ast.Name) and t_.value.id == "self" and t_.attr == r0.attr for t_ in tg_):
+                            v_ = st_.value
+                            while isinstance(v_, ast.Call) and norm(v_.func) == "cast" and len(v_.args) == 2:
+                                v_ = v_.args[1]
+                            if isinstance(v_, ast.Constant) and v_.value is None:
+                                continue
+                            vals.append(isinstance(v_, ast.Subscript) and norm(inl_.inline(v_.value)) == "context.atoms" and norm(inl_.inline(v_.slice)) == "context._moving_indices")
+        if vals and all(vals):
+            copy_ok = True
     L.check(copy_ok, "G3", "Rotation.calculate:copy", f.where, f"the rotated object is `{norm(r0)[:80]}`, not a copy of the moving sub-structure atoms[moving_indices]", "the live atoms are rotated in place / other atoms move", norm(r0)[:100])
     kws = {k.arg: k.value for k in call.keywords}
     center = kws.get("center")
